@@ -28,6 +28,8 @@ pub struct Stats {
     pub violations: Vec<Violation>,
     pub violation_sigs: HashSet<String>,
     pub machinery: Vec<String>,
+    /// order-independent digest over all (state, edge, outcome, successor) tuples (C19: compared between feature sets)
+    pub digest: u64,
 }
 
 pub struct VecModel {
@@ -100,6 +102,8 @@ impl Model for VecModel {
         let mut stats = self.stats.lock().unwrap();
         stats.edges += 1;
         *stats.families.entry(e.family().to_string()).or_insert(0) += 1;
+        // (the Heap target of clone_empty_in only exists with the alloc feature: not part of the cross-feature digest)
+        if !matches!(e, Edge::CloneEmptyIn { target: 0, .. }) { stats.digest = stats.digest.wrapping_add(h64(&format!("{}|{:?}|{:?}|{}|{:?}|{}", self.runner.name(), s, e, out.outcome, out.next, out.fails.len()))); }
         let oc = format!("{}:{}", e.family(), if out.fails.is_empty() { out.outcome.as_str() } else { "FAIL" });
         if stats.outcomes.insert(oc) && stats.samples.len() < 40 {
             stats.samples.push(format!("{} (len={},cap={},{:?}) --{:?}--> {} next={:?}", self.runner.name(), s.len, s.cap, s.spare, e, out.outcome, out.next));
